@@ -131,6 +131,10 @@ func genArcs(r *rand.Rand, valid bool) []int {
 	edge := func() int {
 		return hx.Pick(r, 0, 1, 39, 40, 127, 128, 16383, 16384, 1<<21-1, 1<<21, 1<<28, 1<<31-1, r.Intn(1<<31), r.Intn(300))
 	}
+	if valid && r.Intn(4) == 0 {
+		// the algorithm identifiers the library itself knows (code may special-case them), with any key body
+		return append([]int{}, hx.Pick(r, []int{1, 3, 101, 112}, []int{1, 3, 101, 113}, []int{1, 2, 840, 113549, 1, 1, 1}, []int{1, 2, 840, 10045, 2, 1}, []int{1, 3, 101, 110})...)
+	}
 	var xs []int
 	a := r.Intn(3)
 	b := r.Intn(40)
